@@ -35,7 +35,8 @@ CONSTANTS
   MaxForeign,  \* foreign writes between phase one and rollback (C09)
   MaxDeliver,  \* deliveries of a rollback per branch (C10)
   FailPoints,  \* set of statement indices of the rollback transaction at which a fault may be injected (0 = none)
-  AllowEarly   \* BOOLEAN: a rollback may overtake the undo-log flush of phase one (C10)
+  AllowEarly,  \* BOOLEAN: a rollback may overtake the undo-log flush of phase one (C10)
+  AllowPkUpd   \* BOOLEAN: the application may try to UPDATE a primary key (C18: must be rejected)
 
 Keys == 1..NKeys
 Absent == [w |-> -1, u |-> -1]
@@ -149,6 +150,19 @@ P1(stmts, undoWritten, registered) ==
         /\ last' = [op |-> "p1", b |-> b]
         /\ env' = Append(env, [op |-> "p1", stmts |-> stmts])
   /\ UNCHANGED <<snap0, tried, foreign, phase, next>>
+
+(***************************************************************************)
+(* C18: a statement that would change the primary key of row k is rejected *)
+(* and records nothing (no branch, no undo log, no change).                *)
+(***************************************************************************)
+P1Rejected(k) ==
+  /\ AllowPkUpd /\ phase = "p1" /\ nbr < MaxBranches
+  /\ k \in Keys /\ db[k] # Absent
+  /\ nbr' = nbr + 1
+  /\ rolled' = [rolled EXCEPT ![nbr + 1] = 1]
+  /\ last' = [op |-> "p1pk", b |-> nbr + 1]
+  /\ env' = Append(env, [op |-> "p1pk", key |-> k])
+  /\ UNCHANGED <<db, snap0, imgs, undo, tried, foreign, phase, next>>
 
 (***************************************************************************)
 (* C10: the rollback of branch b = nbr+1 overtakes phase one.  The branch  *)
@@ -274,6 +288,7 @@ GiveUp ==
 Next ==
   \/ \E n \in 1..MaxStmts : \E stmts \in [1..n -> Stmt] : \E uw \in BOOLEAN, reg \in BOOLEAN : P1(stmts, uw, reg)
   \/ \E n \in 1..MaxStmts : \E stmts \in [1..n -> Stmt] : P1Overtaken(stmts)
+  \/ \E k \in Keys : P1Rejected(k)
   \/ \E k \in Keys, r \in Rows : Foreign(k, r)
   \/ StartRollback
   \/ \E b \in Branches, f \in FailPoints, fired \in BOOLEAN, st \in {"rollbacked", "failed"} : Deliver(b, f, fired, st)
